@@ -576,10 +576,45 @@ impl Cfg {
             // Cfgs are compared as strings. Normalize the spelling so the same predicate compares equal
             // regardless of how the input format spaced its tokens
             value: value.map(|v| match v.parse::<proc_macro2::TokenStream>() {
-                Ok(tokens) => tokens.to_string(),
+                Ok(tokens) => Self::spell(tokens),
                 Err(_) => v.into(),
             }),
         }
+    }
+
+    /// Spell out the tokens in one fixed way: `all(feature = "a", not(unix))`.
+    ///
+    /// The `to_string` of a token stream can't be used for this. How it spaces the tokens is not specified
+    /// and differs between the compiler (in a proc macro) and the fallback of proc_macro2 (everywhere else)
+    fn spell(tokens: proc_macro2::TokenStream) -> String {
+        use proc_macro2::{Delimiter, TokenTree};
+
+        let mut spelling = String::new();
+
+        for token in tokens {
+            match token {
+                TokenTree::Group(group) => {
+                    let (open, close) = match group.delimiter() {
+                        Delimiter::Parenthesis => ("(", ")"),
+                        Delimiter::Brace => ("{", "}"),
+                        Delimiter::Bracket => ("[", "]"),
+                        Delimiter::None => ("", ""),
+                    };
+                    spelling += open;
+                    spelling += &Self::spell(group.stream());
+                    spelling += close;
+                }
+                TokenTree::Punct(punct) if punct.as_char() == ',' => spelling += ",",
+                other => {
+                    if !spelling.is_empty() {
+                        spelling += " ";
+                    }
+                    spelling += &other.to_string();
+                }
+            }
+        }
+
+        spelling
     }
 
     #[must_use]
